@@ -477,10 +477,13 @@ fn need_quotes(string: &str) -> bool {
             "false", "on", "On", "ON", "off", "Off", "OFF",
             // http://yaml.org/type/null.html
             "null", "Null", "NULL", "~",
+            // Read back as a float, but not accepted by `parse::<f64>` below.
+            "+.inf", "+.Inf", "+.INF",
         ]
         .contains(&string)
         || string.starts_with('.')
         || string.starts_with("0x")
+        || string.starts_with("0o")
         || string.parse::<i64>().is_ok()
         || string.parse::<f64>().is_ok()
 }
